@@ -103,12 +103,12 @@ func genScript(t *rapid.T) script {
 	var s script
 	nch := rapid.IntRange(1, 3).Draw(t, "nchans")
 	for i := 0; i < nch; i++ {
-		s.Caps = append(s.Caps, rapid.IntRange(0, 2).Draw(t, "cap"))
+		s.Caps = append(s.Caps, rapid.SampledFrom([]int{0, 0, 0, 1, 1, 2, 2, 3, 4}).Draw(t, "cap"))
 	}
 	nth := rapid.IntRange(2, 4).Draw(t, "nthreads")
 	closer := map[int]bool{}
 	for i := 0; i < nth; i++ {
-		nops := rapid.IntRange(1, 4).Draw(t, "nops")
+		nops := rapid.SampledFrom([]int{1, 2, 2, 3, 3, 4, 4, 5, 7}).Draw(t, "nops")
 		var ops []op
 		for j := 0; j < nops; j++ {
 			k := rapid.SampledFrom([]opKind{opSend, opSend, opSend, opRecv, opRecv, opRecv, opClose, opLen, opSelect, opSelect, opTrySelect}).Draw(t, "kind")
